@@ -102,6 +102,23 @@ Proof.
   - split; [reflexivity|]. split; [discriminate|]. eexists. split; [left; reflexivity|discriminate].
 Qed.
 
+(* the unchanged code ORed the whole ResponseCode — whose upper bits decoding takes from the OPT
+   record's TTL (extended RCODE, here BADVERS = 16) — into header byte 3: the Z bits changed *)
+Theorem C06_dns_rcode_orig_refuted : exists data d,
+  decode_into dns_fresh data = (d, Ok tt, false) /\ d_z d = 0 /\ d_rcode d = 16 /\
+  match serialize_orig d [] true true [] with
+  | (Ok b, _) => snd (fst (decode_into dns_fresh b)) = Ok tt /\ d_z (fst (fst (decode_into dns_fresh b))) = 1
+  | _ => False
+  end /\
+  match serialize d [] true true [] with
+  | (Ok b, _) => d_z (fst (fst (decode_into dns_fresh b))) = 0 /\ d_rcode (fst (fst (decode_into dns_fresh b))) = 16
+  | _ => False
+  end.
+Proof.
+  exists [0;0;0;0; 0;0;0;0;0;0;0;1; 0; 0;41; 16;0; 1;0;0;0; 0;0]. eexists. split; [vm_compute; reflexivity|].
+  vm_compute. repeat split.
+Qed.
+
 (* ------------------------------------------------------------------ C07 *)
 (* DNS.SerializeTo never panics: for EVERY layer value — whatever a successful or failed decode left
    behind, or any value built from the public fields, with any private name metadata — every payload,
